@@ -514,6 +514,62 @@ func (g *JSGen) Expr(depth int) string {
 			return g.classExprNew(depth - 1)
 		}
 		return sub()
+	case 33:
+		// a comparison with zero in a boolean context whose other side looks like an integer: the shapes
+		// SimplifyBooleanExpr rewrites to the bare operand; the non-integer operand of a logical operator is a
+		// TRUTHY value that is loosely equal to 0
+		g.stat("int-compare-zero")
+		ints := []string{paren(sub()) + " >>> " + paren(sub()), paren(sub()) + " | 0", "~" + paren(sub()), paren(sub()) + " << 1", paren(sub()) + " & " + paren(sub()), paren(sub()) + " ^ 0", paren(sub()) + " >> 0"}
+		intE := func() string {
+			if r.Bool() {
+				return paren(ints[0]) // `>>>` is the one operator that cannot give a BigInt: the rewrite's trigger
+			}
+			return paren(ints[r.Intn(len(ints))])
+		}
+		zeroish := []string{"\"0\"", "\" \"", "[]", "[0]", "\"0x0\"", "[[]]", "\"\\n\"", "({valueOf() { return 0 }})", "\"0.0\"", "[\"0\"]", "-0", "0n", "false", "null", "NaN", paren(sub())}
+		z := zeroish[r.Intn(len(zeroish))]
+		if z == "0n" && !g.F.BigInt || strings.HasPrefix(z, "({valueOf") && !g.F.Getters {
+			z = "\"0\""
+		}
+		var a string
+		k := r.Intn(9)
+		if k > 6 {
+			k = 1
+		}
+		if k == 3 && !g.F.Nullish {
+			k = 1
+		}
+		switch k {
+		case 0:
+			a = intE()
+		case 1:
+			a = paren(z + " || " + intE())
+		case 2:
+			a = paren(z + " && " + intE())
+		case 3:
+			a = paren(z + " ?? " + intE())
+		case 4:
+			a = paren(paren(sub()) + " ? " + intE() + " : " + pickS2(r, intE(), z))
+		case 5:
+			a = paren(z + ", " + intE())
+		default:
+			a = paren(intE() + " || " + z)
+		}
+		op := []string{"==", "!=", "===", "!=="}[r.Intn(4)]
+		cmp := a + " " + op + " 0"
+		if r.Chance(1, 4) {
+			cmp = "0 " + op + " " + a
+		}
+		switch r.Intn(4) {
+		case 0:
+			return "!" + paren(cmp)
+		case 1:
+			return paren(paren(cmp) + " ? \"t\" : \"f\"")
+		case 2:
+			return paren(paren(cmp) + " && " + paren(sub()))
+		default:
+			return "Boolean(" + cmp + ")"
+		}
 	case 31:
 		g.stat("str-method")
 		return paren(strLits[r.Intn(len(strLits))]) + []string{".length", ".charCodeAt(0)", "[0]", ".toUpperCase()", ".concat(" + sub() + ")", ".codePointAt(0)", ".slice(1)"}[r.Intn(7)]
@@ -538,6 +594,13 @@ func (g *JSGen) atom(depth int) string {
 	default:
 		return g.leafNoSign()
 	}
+}
+
+func pickS2(r *Rand, a, b string) string {
+	if r.Bool() {
+		return a
+	}
+	return b
 }
 
 func (g *JSGen) leafNoSign() string {
